@@ -139,8 +139,10 @@ func Empty[T any]() T {
 func toS(arg any) string {
 	rval := reflect.ValueOf(arg)
 	switch rval.Kind() {
-	case reflect.Int, reflect.Int8, reflect.Int16, reflect.Int32, reflect.Int64, reflect.Uint, reflect.Uint8, reflect.Uint16, reflect.Uint32, reflect.Uint64, reflect.Uintptr:
+	case reflect.Int, reflect.Int8, reflect.Int16, reflect.Int32, reflect.Int64:
 		return fmt.Sprintf("%d", rval.Int())
+	case reflect.Uint, reflect.Uint8, reflect.Uint16, reflect.Uint32, reflect.Uint64, reflect.Uintptr:
+		return fmt.Sprintf("%d", rval.Uint())
 	case reflect.Float32, reflect.Float64:
 		return fmt.Sprintf("%f", rval.Float())
 	case reflect.String:
